@@ -338,8 +338,9 @@ func VerifyHashed(pubx, puby, e, r, s []byte) (bool, error) {
 	}
 
 	// done sanity check
+	// the scalar multiplication consumes t as a fixed 32-byte big endian string
 	var tBytes []byte
-	tBytes = t.Bytes()
+	tBytes = ensure32Bytes(&t)
 
 	result, err = internal.ScalarMixedMult_Unsafe(s, pub, tBytes)
 	if err != nil {
